@@ -42,6 +42,11 @@ func TestRegress_Accept(t *testing.T) {
 		"x = y => {}\n(z)":         "Stmt(x=(Params(Binding(y)) => Stmt({ }))) Stmt(z)",
 		"x = async y => {}\n(z)":   "Stmt(x=(async Params(Binding(y)) => Stmt({ }))) Stmt(z)",
 		"x = async (y) => {}\n[z]": "Stmt(x=(async Params(Binding(y)) => Stmt({ }))) Stmt([z])",
+		// 7f519fc: the operators behind an expression that starts with async are parsed once, with the context's in restriction
+		"x,async function(){}?a:b++\n(d)": "Stmt(x,(Decl(async function Params() Stmt({ })) ? a : (b++))) Stmt(d)",
+		"for(async in b);":                "Stmt(for async in b Stmt({ }))",
+		"for(async.x in b);":              "Stmt(for (async.x) in b Stmt({ }))",
+		"x = async in b":                  "Stmt(x=(async in b))",
 	} {
 		ast, err := js.Parse(parse.NewInputString(src), js.Options{})
 		if err != nil {
